@@ -40,7 +40,7 @@ def bounds(tier):
 
 
 def required_guards(tier):
-    return ['schedules', 'dev0', 'dev1', 'dev2', 'step:yield', 'step:StopIteration',
+    return ['schedules', 'dev0', 'dev1', 'dev2', 'next_after_exception', 'step:yield', 'step:StopIteration',
             'step:IndexError', 'step:RuntimeError', 'mut:clear', 'mut:drop', 'mut:delete', 'mut:insert',
             'emptied_under_cursor', 'height>=2']
 
@@ -238,13 +238,21 @@ def run_schedule(ctx, fam, hist, grid, form, devs, maxsteps, guards):
 
     problem = None
     if not is_seq:
-        for _ in range(maxsteps):
+        # an iterator that has raised (StopIteration, RuntimeError, IndexError) is asked again, twice:
+        # a caller that handles the error and carries on must get an entry, the end or an error again
+        after_exc = 0
+        for _ in range(maxsteps + 3):
             before_step()
             r = O.outcome(next, it)
             trace.append(r if r[0] == 'exc' else ('ok',))
             problem = judge(r)
-            if problem or r[0] == 'exc':
+            if problem:
                 break
+            if r[0] == 'exc' or after_exc:
+                after_exc += 1
+                guards['next_after_exception'] += 1
+                if after_exc > 2:
+                    break
     elif is_seq == 'neg':
         i = -1
         while -i <= maxsteps and not problem:
